@@ -158,6 +158,29 @@ REGISTRY.add(Contract(
          "for each diskstats layout; perdisk=False keeps whole disks only"))
 
 
+# --- is_storage_device: which sysfs entry decides ---------------------------------------------------------------------------
+SD_NAMES = {"sda": "/sys/block/sda", "sda1": "/sys/block/sda1", "nvme0n1p1": "/sys/block/nvme0n1p1",
+            "cciss/c0d0": "/sys/block/cciss!c0d0", "cciss/c0d0p1": "/sys/block/cciss!c0d0p1", "a/b/c": "/sys/block/a!b!c"}
+
+
+def setup_isd(it, cfg):
+    import os as _os
+    ans = it.fresh("sysfs_entry_exists", "Bool")
+
+    def access(it2, path, mode):
+        it2.ctx.log.append(("access", path, mode == _os.F_OK))
+        return ans
+
+    it.env_over["os.access"] = EnvFunc("access", access)
+    return {"args": {"name": cfg["name"]}, "spec": {"ans": ans, "want": SD_NAMES[cfg["name"]]}, "values": [ans]}
+
+
+REGISTRY.add(Contract(
+    "C09", LINUX_PY, "is_storage_device", setup=setup_isd, env=ENV, configs=[{"name": n} for n in SD_NAMES],
+    ensures=["result == ans", "log == [('access', want, True)]"], raises={}, canaries=["len(log) == 3"], replay=None,
+    note="a device is a whole disk iff /sys/block/<name with '/' written as '!'> exists (names like cciss/c0d0 included)"))
+
+
 # --- system-wide aggregation (front end), fixed number of devices ------------------------------------------
 
 def setup_front(kind):
@@ -173,8 +196,19 @@ def setup_front(kind):
             it.env_over["_pslinux.disk_io_counters"] = EnvFunc("raw", lambda it2, **kw: dict(raw))
         else:
             it.env_over["_pslinux.net_io_counters"] = EnvFunc("raw", lambda it2: dict(raw))
-        it.env_over["__init__._wrap_numbers"] = EnvFunc("wrap", lambda it2, d, name: d)
-        return {"args": {arg: per, "nowrap": cfg["nowrap"]}, "spec": {"raw": raw, "k": k, "per": per, "width": width}}
+        # the wrap-around filter is a different function of the history: its output is independent of the raw values
+        wrapped = collections.OrderedDict((d, tuple(it.fresh(f"w{j}_{i}", "Int") for i in range(width)))
+                                          for j, d in enumerate(raw))
+
+        def wrap(it2, d, name):
+            it2.ctx.log.append(("wrap", name, set(d) == set(raw)))
+            return dict(wrapped)
+
+        it.env_over["__init__._wrap_numbers"] = EnvFunc("wrap", wrap)
+        used = wrapped if cfg["nowrap"] else raw
+        return {"args": {arg: per, "nowrap": cfg["nowrap"]},
+                "spec": {"raw": used, "k": k, "per": per, "width": width, "nowrap": cfg["nowrap"],
+                         "cache_name": "psutil.disk_io_counters" if kind == "disk" else "psutil.net_io_counters"}}
     return setup
 
 
@@ -187,6 +221,10 @@ for kind, qual in (("disk", "disk_io_counters"), ("net", "net_io_counters")):
             "implies(k > 0 and not per, forall(range(width), lambda i: result[i] == sum([raw[d][i] for d in raw])))",
             "implies(k > 0 and per, set(result) == set(raw) and "
             "forall(list(raw), lambda d: forall(range(width), lambda i: result[d][i] == raw[d][i])))",
+            # nowrap=True: the figures come from the wrap-around filter, asked once, under this function's own cache name,
+            # with the raw per-device dict; nowrap=False: the raw figures, the filter is not consulted
+            "implies(k > 0 and nowrap, log == [('wrap', cache_name, True)])",
+            "implies(k == 0 or not nowrap, len(log) == 0)",
         ],
         raises={}, canaries=["result == 5"], replay=None,
         note="system-wide form = field-wise sum over the devices; None / {} when nothing is listed"))
